@@ -699,7 +699,24 @@ func (c *C19Case) Run() string {
 				}
 				var t *tensor.Dense
 				how := "WithBacking"
-				switch st.Code % 3 {
+				switch st.Code % 4 {
+				case 3:
+					// two predicates in a row on a fresh tensor: its mask is hard, so the second adds to the first
+					how = "MaskedEqual+MaskedGreater"
+					t = tensor.New(tensor.WithShape(shape...), tensor.WithBacking(mkBacking(d, arr.E)))
+					pivot := arr.E[len(arr.E)/2]
+					if err := t.MaskedEqual(arr.E[0]); err != nil {
+						stepErr = "MaskedEqual refused: " + err.Error()
+						return
+					}
+					if err := t.MaskedGreater(pivot); err != nil {
+						stepErr = "MaskedGreater refused: " + err.Error()
+						return
+					}
+					for k := range mask {
+						g, _ := cmpop("Gt", arr.E[k], pivot)
+						mask[k] = eqVal(arr.E[k], arr.E[0]) || g
+					}
 				case 0:
 					t = tensor.New(tensor.WithShape(shape...), tensor.WithBacking(mkBacking(d, arr.E), append([]bool{}, mask...)))
 				case 1:
@@ -759,8 +776,12 @@ func (c *C19Case) Run() string {
 				i := abs(st.I) % len(w.masked)
 				mm := w.masked[i]
 				w.masked = append(w.masked[:i], w.masked[i+1:]...)
-				tensor.ReturnTensor(mm.T)
 				note = "ReturnTensor(" + mm.name + ")"
+				if st.J%2 == 0 {
+					mm.T.SoftenMask() // whatever state the tensor is handed back in, the next user starts afresh
+					note = "SoftenMask+" + note
+				}
+				tensor.ReturnTensor(mm.T)
 			case "UsePool":
 				tensor.UsePool()
 			case "DontUsePool":
